@@ -275,6 +275,9 @@ func (i *Inst) SaveSnapshot(between func(), w io.Writer, stopc <-chan struct{}) 
 func (i *Inst) Recover(r io.Reader, stopc <-chan struct{}) (err error) {
 	defer func() {
 		if rr := recover(); rr != nil {
+			if fmt.Sprint(rr) == "sched: execution aborted" {
+				panic(rr) // the explorer's way of ending a thread: not the code's panic
+			}
 			err = fmt.Errorf("PANIC in snapshot recover: %v", rr)
 		}
 	}()
